@@ -1098,7 +1098,8 @@ def _check_parameterized_gammas_lindblad_operators(
         gammalist.append(try_gamma)
         loplist.append(try_lop)
     _check_gammas_lindblad_operators(gammalist,loplist)
-    return gammas, lindblad_operators
+    # own lists: the caller may go on editing the lists it passed in
+    return list(gammas), list(lindblad_operators)
 
 def _check_mean_field_system_eom(dim_list, field_eom):
     """Input check a field equation of motion for a mean-field-system"""
